@@ -386,7 +386,7 @@ func Main(args []string) error {
 	seed := fs.Int64("seed", 1, "seed")
 	nseed := fs.Int("n", 20, "number of seeded scenarios at realistic timescales")
 	par := fs.Int("par", 6, "parallel scenario workers")
-	fix := fs.Bool("fix", false, "the repository under test carries proposed_fixes/X03-vod0-*.diff (header constant for the transcription)")
+	fix := fs.Bool("fix", true, "header constant for the transcription: true = the present code, false = the code before the vod0 fixes 27fa7f8 / 52d2ae2")
 	_ = fs.Parse(args)
 	if *work == "" || *gen == "" {
 		return fmt.Errorf("-work and -gen required")
@@ -474,6 +474,9 @@ func Main(args []string) error {
 				mode := "time"
 				if rc.kind == "nr" {
 					mode = []string{"number", "tlnr"}[(rc.q+rc.now)%2]
+					if c.Ato < 0 && rc.pred != nil {
+						mode = "number" // the GEN prediction of a number request is that of the $Number$ URL (ato_inf + tlnr is refused: 400)
+					}
 				}
 				uc := tl.Cfg{Mode: mode, SNR: int(c.SNR), AST: c.AST, TSBD: int(c.TSBD), AtoMS: c.Ato}
 				u := fmt.Sprintf("%s/V300/%d.m4s?nowMS=%d", uc.Prefix(a.Name), rc.q, rc.now)
